@@ -799,9 +799,11 @@ def _const_value(e):
 
 
 def _const_truth(test) -> Optional[bool]:
-    """truth of a test that is a *compound* of literals (a bare literal such as `while True` / `if 0` is left alone)"""
+    """truth of an `if` / conditional-expression test made of literals only (`while` tests are never folded)"""
     if isinstance(test, ast.Constant):
-        return None
+        # a bare True / False is what a splice with a boolean flag argument leaves (`if False:` / `a if True else b`);
+        # other bare literals (`if 0:`, `if 1:`) are left alone
+        return test.value if isinstance(test.value, bool) else None
     r = _const_value(test)
     return bool(r[1]) if r is not None else None
 
